@@ -268,7 +268,10 @@ static std::vector<ModelSpec> model_menu(int ndim, bool thorough)
           m.desc = "MATERN nu=" + fmt(nu) + " range=" + fmt(r) + " sill=" + fmt(s) + " aniso=" + std::to_string(an);
           out.push_back(m);
         }
+  // MARKOV structures: 1-D and 2-D only. In 3-D every CovAniso construction / setMarkovCoeffs runs a 256^3 FFT
+  // (ACovFunc::computeCorrec) = minutes and GBs per model: outside any test budget (reported, not a C15 matter).
   std::vector<std::vector<double>> cf = {{1, 2, 1}, {1, 0.5}, {2, 1, 0.25, 0.125}, {0.5, 0, 1}};
+  if (ndim == 3) cf.clear();
   for (auto& c : cf)
     for (int an = 0; an < (ndim == 1 ? 1 : 3); an += 2)
     {
@@ -324,8 +327,11 @@ VF_PART(op_vs_matrix)
     const MeshSpec& ms = meshes[idx[0]];
     if (idx[1] >= (int)mm[ms.ndim].size()) return;  // menu shorter in that dimension (not a case)
     const ModelSpec& mo = mm[ms.ndim][idx[1]];
+    // a 2-D MARKOV structure costs ~0.25 s of FFT per construction (ACovFunc::computeCorrec): taken on a regular sub-menu of the meshes
+    if (mo.type == 1 && ms.ndim == 2 && (idx[0] % (C.thorough() ? 1 : 8)) != 0) return;
     std::string kase = std::to_string(id);
     std::string what0 = ms.desc + " | " + mo.desc;
+    if (C.verbose) fprintf(stderr, "case %s: %s\n", kase.c_str(), what0.c_str());
     defineDefaultSpace(ESpaceType::RN, ms.ndim);
     std::unique_ptr<AMesh> mesh(build_mesh(ms));
     std::unique_ptr<Model> model(build_model(mo, ms.ndim));
@@ -415,6 +421,466 @@ VF_PART(op_vs_matrix)
     C.outcome(worst == 0 ? "agree-bitwise" : worst <= 1e-14 * qmax ? "agree<1e-14" : worst <= tol ? "agree<1e-10" : "DISAGREE");
     if (deg >= 1 && n >= 2) C.nontrivial(id);
     if (id % 211 == 0) C.sample("{\"id\":" + std::to_string(id) + ",\"mesh\":" + jstr(ms.desc) + ",\"model\":" + jstr(mo.desc) + ",\"n\":" + std::to_string(n) + ",\"maxdiff\":" + fmt(worst) + ",\"eigmin\":" + fmt(emin) + "}");
+  });
+}
+
+// ================================================================================================
+// projection: reference = exhaustive barycentric test of the query point against EVERY cell (Eigen solve)
+struct Cell { std::vector<int> ap; EM T; /* (ndim+1)x(ndim+1): rows = coords + row of ones */ EM Tinv; };
+static std::vector<Cell> cells_of(const AMesh* mesh, int ndim)
+{
+  std::vector<Cell> out;
+  for (int im = 0; im < mesh->getNMeshes(); im++)
+  {
+    Cell c; c.T = EM(ndim + 1, ndim + 1);
+    for (int r = 0; r <= ndim; r++)
+    {
+      int ia = mesh->getApex(im, r);
+      c.ap.push_back(ia);
+      for (int d = 0; d < ndim; d++) c.T(d, r) = mesh->getApexCoor(ia, d);
+      c.T(ndim, r) = 1.;
+    }
+    c.Tinv = c.T.inverse();
+    out.push_back(c);
+  }
+  return out;
+}
+// weight vectors (dyadic) applied with every rotation of the apices of a cell
+static std::vector<std::vector<double>> bary_menu(int ndim, bool thorough)
+{
+  const double e = 1. / 1024.;
+  std::vector<std::vector<double>> m;
+  if (ndim == 1) m = {{.5, .5}, {.875, .125}, {1 - e, e}, {1, 0}, {1.25, -.25}, {1 + e, -e}, {3, -2}};
+  if (ndim == 2) m = {{.5, .25, .25}, {.625, .25, .125}, {1 - 2 * e, e, e}, {.5, .5, 0}, {.75, .25, 0}, {1, 0, 0},
+                      {1.25, -.5, .25}, {.5 + e / 2, .5, -e / 2}, {2, -.5, -.5}, {.5, .75, -.25}};
+  if (ndim == 3) m = {{.25, .25, .25, .25}, {.5, .25, .125, .125}, {1 - 3 * e, e, e, e}, {.5, .25, .25, 0}, {.5, .5, 0, 0}, {1, 0, 0, 0},
+                      {1.25, -.5, .125, .125}, {.5 + e / 2, .25, .25, -e / 2}, {2, -.5, -.25, -.25}};
+  if (!thorough && ndim == 3) m.resize(8);
+  return m;
+}
+
+VF_PART(projection)
+{
+  auto meshes = mesh_menu(C.thorough(), 0);
+  Space sp;
+  // order: 0 = inside points first, boundary points next, outside points last; 1 = generation order (outside points interleaved, two first)
+  // filter: 0 = all samples, 1 = a selection and undefined Z values with rankZ=0
+  sp.axis("mesh", (int)meshes.size()).axis("order", 2).axis("filter", 2);
+  for_each_case(C, sp, [&](uint64_t id, const std::vector<int>& idx) {
+    const MeshSpec& ms = meshes[idx[0]];
+    int ord = idx[1], filter = idx[2];
+    int ndim = ms.ndim;
+    std::string kase = std::to_string(id);
+    std::string mk = std::string(ms.kind == 0 ? "turbo" : "std") + std::to_string(ndim) + "d";
+    std::string lay = " order=" + std::to_string(ord) + " filter=" + std::to_string(filter);
+    defineDefaultSpace(ESpaceType::RN, ndim);
+    std::unique_ptr<AMesh> mesh(build_mesh(ms));
+    if (!mesh) { C.violation("setup:null", "mesh not built: " + ms.desc, kase); return; }
+    auto cells = cells_of(mesh.get(), ndim);
+    int na = mesh->getNApices();
+    // ---- query points
+    std::vector<EV> pts;
+    std::vector<int> must_in;  // 1: generated strictly inside a cell or strictly inside a face shared by two cells
+    auto W = bary_menu(ndim, C.thorough());
+    std::map<std::vector<int>, int> facecount;
+    for (auto& c : cells)
+      for (int k = 0; k <= ndim; k++)
+      {
+        std::vector<int> f;
+        for (int r = 0; r <= ndim; r++) if (r != k) f.push_back(c.ap[r]);
+        std::sort(f.begin(), f.end());
+        facecount[f]++;
+      }
+    double cmin = 1e300, cmax = -1e300;
+    for (int ia = 0; ia < na; ia++) for (int d = 0; d < ndim; d++) { double v = mesh->getApexCoor(ia, d); cmin = std::min(cmin, v); cmax = std::max(cmax, v); }
+    double scale = std::max({1., std::fabs(cmin), std::fabs(cmax)});
+    for (int s2 = 0; s2 < 2; s2++) { EV p(ndim); for (int d = 0; d < ndim; d++) p[d] = s2 == 0 ? cmin - 10. - d : cmax + 7.5 + d; pts.push_back(p); must_in.push_back(0); }
+    for (auto& c : cells)
+      for (auto& w : W)
+        for (int rot = 0; rot <= ndim; rot++)
+        {
+          EV p = EV::Zero(ndim);
+          int nzero = 0, zeroat = -1; bool neg = false;
+          for (int r = 0; r <= ndim; r++)
+          {
+            double wr = w[(r + rot) % (ndim + 1)];
+            if (wr == 0) { nzero++; zeroat = r; }
+            if (wr < 0) neg = true;
+            for (int d = 0; d < ndim; d++) p[d] += wr * c.T(d, r);
+          }
+          int must = 0;
+          if (!neg && nzero == 0) must = 1;
+          if (!neg && nzero == 1)
+          {
+            std::vector<int> f;
+            for (int r = 0; r <= ndim; r++) if (r != zeroat) f.push_back(c.ap[r]);
+            std::sort(f.begin(), f.end());
+            if (facecount[f] >= 2) must = 1;
+          }
+          pts.push_back(p); must_in.push_back(must);
+        }
+    { EV p(ndim); for (int d = 0; d < ndim; d++) p[d] = cmax + 100.; pts.push_back(p); must_in.push_back(0); }
+    int np = (int)pts.size();
+    // ---- reference classification: best margin over all cells
+    std::vector<double> marg(np);
+    std::vector<int> cls(np);  // 0 inside, 1 boundary band, 2 outside
+    for (int i = 0; i < np; i++)
+    {
+      EV rhs(ndim + 1); rhs.head(ndim) = pts[i]; rhs[ndim] = 1.;
+      double m = -1e300;
+      for (auto& c : cells) { EV b = c.Tinv * rhs; m = std::max(m, b.minCoeff()); }
+      marg[i] = m;
+      cls[i] = (m > 1e-7 || (must_in[i] && m > -1e-12)) ? 0 : (m < -1e-4 ? 2 : 1);
+    }
+    std::vector<int> sorted(np), gen(np);
+    for (int i = 0; i < np; i++) gen[i] = sorted[i] = i;
+    std::stable_sort(sorted.begin(), sorted.end(), [&](int a2, int b2) { return cls[a2] < cls[b2]; });
+    // ---- run the library on one layout
+    struct Run { bool ok = false; int nrows = 0, ncols = 0; EM A; std::vector<int> kept; /* point index per expected row */ };
+    auto run = [&](const std::vector<int>& order, int filt) -> Run {
+      Run r;
+      std::vector<std::vector<double>> X(ndim, std::vector<double>(np)), Z(1, std::vector<double>(np, 1.));
+      for (int i = 0; i < np; i++) for (int d = 0; d < ndim; d++) X[d][i] = pts[order[i]][d];
+      std::unique_ptr<Db> db;
+      if (filt == 1)
+      {
+        std::vector<double> sel(np, 1.);
+        for (int i = 0; i < np; i++) { if (i % 5 == 1) sel[i] = 0.; if (i % 7 == 3) Z[0][i] = TEST; }
+        std::vector<std::vector<double>> cols; std::vector<std::string> names, locs;
+        for (int d = 0; d < ndim; d++) { cols.push_back(X[d]); names.push_back("x" + std::to_string(d + 1)); locs.push_back("x" + std::to_string(d + 1)); }
+        cols.push_back(Z[0]); names.push_back("z1"); locs.push_back("z1");
+        cols.push_back(sel); names.push_back("sel"); locs.push_back("sel");
+        db.reset(make_db(cols, names, locs));
+        for (int i = 0; i < np; i++) if (sel[i] != 0. && !FFFF(Z[0][i])) r.kept.push_back(order[i]);
+      }
+      else
+      {
+        db.reset(make_db_xz(X, Z));
+        for (int i = 0; i < np; i++) r.kept.push_back(order[i]);
+      }
+      if (!db) return r;
+      ProjMatrix proj(db.get(), mesh.get(), filt == 1 ? 0 : -1, false);
+      r.nrows = proj.getNRows(); r.ncols = proj.getNCols();
+      r.A = EM::Zero(std::max<int>(r.nrows, (int)r.kept.size()), na);
+      if (r.ncols == na || r.nrows == 0)
+        for (int i = 0; i < r.nrows; i++) for (int j = 0; j < std::min(na, r.ncols); j++) r.A(i, j) = proj.getValue(i, j);
+      r.ok = true;
+      return r;
+    };
+    Run R = run(ord == 0 ? sorted : gen, filter);
+    C.eval();
+    if (!R.ok) { C.violation("setup:null", "db not built", kase); return; }
+    int nexp = (int)R.kept.size();
+    std::vector<std::pair<std::string, std::string>> pend;  // violations of this case (flushed at the end, see the shift diagnosis)
+    if (R.ncols != na || R.nrows > nexp)
+    {
+      C.violation("proj:shape:" + mk, "ProjMatrix is " + std::to_string(R.nrows) + "x" + std::to_string(R.ncols) + ", expected " + std::to_string(nexp) + "x" + std::to_string(na) + " : " + ms.desc + lay, kase);
+      return;
+    }
+    if (R.nrows < nexp)
+    {
+      // rows are missing: one mechanism is known (no row at all for trailing samples outside the mesh); anything else is generic
+      bool trailing_outside = true;
+      for (int row = R.nrows; row < nexp; row++) if (cls[R.kept[row]] == 0) trailing_outside = false;
+      std::string t = "ProjMatrix has " + std::to_string(R.nrows) + " rows for " + std::to_string(nexp) + " active samples (the last " + std::to_string(nexp - R.nrows) + " samples lie outside the mesh): " + ms.desc + lay;
+      if (trailing_outside) C.violation("proj:rows-missing-for-trailing-outside-samples:" + std::string(ms.kind == 0 ? "turbo" : "std"), t, kase);
+      else { C.violation("proj:shape:" + mk, t, kase); return; }
+      C.outcome("rows-missing-at-end");
+    }
+    EM XA(na, ndim);
+    for (int ia = 0; ia < na; ia++) for (int d = 0; d < ndim; d++) XA(ia, d) = mesh->getApexCoor(ia, d);
+    uint64_t nin = 0, nout = 0, nband = 0;
+    for (int row = 0; row < nexp; row++)
+    {
+      int ip = R.kept[row];
+      const EV& p = pts[ip];
+      EV w = R.A.row(row).transpose();
+      double sum = w.sum(), wmin = w.minCoeff();
+      bool empty = (w.cwiseAbs().maxCoeff() == 0.);
+      std::string pstr = "point " + vstr(std::vector<double>(p.data(), p.data() + ndim)) + " (row " + std::to_string(row) + ") " + ms.desc + lay;
+      auto judge_row = [&](double tolw) {
+        if (!(wmin >= -tolw)) pend.push_back({"proj:negative-weight:" + mk, "weight " + fmt(wmin) + " at " + pstr});
+        if (!(std::fabs(sum - 1.) <= std::max(tolw, 1e-12) * (ndim + 1))) pend.push_back({"proj:sum-not-one:" + mk, "weights sum to " + fmt(sum) + " at " + pstr});
+        EV rep = XA.transpose() * w;
+        double dev = (rep - p).cwiseAbs().maxCoeff();
+        if (!(dev <= std::max(tolw * 10, 1e-10) * scale))
+          pend.push_back({"proj:affine-not-reproduced:" + mk, "sum w_k x_k differs from the point by " + fmt(dev) + " at " + pstr + " weights " + vstr(std::vector<double>(w.data(), w.data() + na))});
+        int nnz = 0; for (int k = 0; k < na; k++) if (w[k] != 0) nnz++;
+        if (nnz > ndim + 1) pend.push_back({"proj:too-many-weights:" + mk, std::to_string(nnz) + " non zero weights at " + pstr});
+      };
+      if (cls[ip] == 0)
+      {
+        nin++;
+        if (empty) pend.push_back({"proj:empty-row-inside:" + mk, "empty row for a point inside the mesh (margin " + fmt(marg[ip]) + "): " + pstr});
+        else judge_row(1e-12);
+        C.outcome(marg[ip] > 1e-7 ? "inside-cell" : "inside-on-shared-face");
+      }
+      else if (cls[ip] == 2)
+      {
+        nout++;
+        if (!empty) pend.push_back({"proj:row-not-empty-outside:" + mk, "non empty row (sum " + fmt(sum) + ") for a point outside every cell (best margin " + fmt(marg[ip]) + "): " + pstr});
+        C.outcome("outside");
+      }
+      else
+      {  // on the boundary of the mesh: the property leaves latitude on emptiness; a non empty row must still be a valid one
+        nband++; C.skip();
+        if (!empty) { judge_row(1e-5); C.outcome("boundary-nonempty-judged"); }
+        else C.outcome("boundary-empty-excluded");
+      }
+    }
+    if (!pend.empty() && ord == 1)
+    {
+      // Diagnosis of ONE known mechanism: samples outside the grid are skipped without consuming a row, so that all the following rows move up.
+      // Per-sample rows come from the sorted layout (outside samples last) of the same filter, which is judged on its own as a separate case.
+      Run S = run(sorted, 0);
+      std::map<int, EV> wref;
+      if (S.ok && S.ncols == na) for (int row = 0; row < (int)S.kept.size(); row++) wref[S.kept[row]] = S.A.row(row).transpose();
+      std::vector<EV> got, want;
+      for (int row = 0; row < nexp; row++)
+      {
+        EV w = R.A.row(row).transpose();
+        if (w.cwiseAbs().maxCoeff() != 0.) got.push_back(w);
+        auto it = wref.find(R.kept[row]);
+        if (it != wref.end() && it->second.cwiseAbs().maxCoeff() != 0.) want.push_back(it->second);
+      }
+      bool shifted = got.size() == want.size() && !got.empty();
+      for (size_t k = 0; shifted && k < got.size(); k++) if (got[k] != want[k]) shifted = false;
+      if (shifted)
+      {
+        std::string first = pend[0].second;
+        pend.clear();
+        pend.push_back({"proj:rows-shifted-after-sample-outside-grid:" + std::string(ms.kind == 0 ? "turbo" : "std"),
+                        "the non empty rows are the right ones but stored at earlier row indices: rows no longer correspond to samples (first symptom: " + first + ")"});
+        C.outcome("rows-shifted");
+      }
+    }
+    for (auto& pv : pend) C.violation(pv.first, pv.second, kase);
+    if (nin > 0 && nout > 0) C.nontrivial(id);
+    if (id % 97 == 0) C.sample("{\"id\":" + std::to_string(id) + ",\"mesh\":" + jstr(ms.desc) + ",\"order\":" + std::to_string(ord) + ",\"filter\":" + std::to_string(filter) + ",\"inside\":" + std::to_string(nin) + ",\"outside\":" + std::to_string(nout) + ",\"boundary\":" + std::to_string(nband) + "}");
+  });
+}
+
+// ================================================================================================
+// solvers: SPDE kriging / likelihood through sparse Cholesky and through the matrix free conjugate gradient
+struct KrigRun
+{
+  bool ok = false;
+  int rc = 0;
+  std::vector<double> est;                // kriging estimate at the targets
+  EV x, b;                                // solution and right-hand side of the linear system (all structures, flattened)
+  std::vector<double> var, zc;            // data variances, centred data
+  std::vector<EM> proj;                   // projection matrices per structure (ndat x napices)
+  double quad = NAN, logdetTotal = NAN, logdetOp = NAN, loglik = NAN;
+};
+static KrigRun run_spde(Model* model, Db* data, Db* target, const AMesh* mesh, int useChol, int withLik)
+{
+  KrigRun r;
+  SPDE spde(model, target, data, ESPDECalcMode::KRIGING, mesh, useChol, SPDEParam(), false, false);
+  if (spde._precisionsKrig == nullptr || spde._precisionsKrig->sizes() == 0) return r;
+  int iptr = spde.compute(target, 1, NamingConvention("k"));
+  if (iptr <= 0) { r.rc = iptr; return r; }
+  VectorDouble e = target->getColumnByUID(iptr);
+  r.est.assign(e.begin(), e.end());
+  std::vector<double> xf;
+  for (auto& v : spde._workingKrig) xf.insert(xf.end(), v.begin(), v.end());
+  r.x = Eigen::Map<EV>(xf.data(), xf.size());
+  auto rhs = spde._precisionsKrig->computeRhs(spde._workingData);
+  std::vector<double> bf;
+  for (auto& v : rhs) bf.insert(bf.end(), v.begin(), v.end());
+  r.b = Eigen::Map<EV>(bf.data(), bf.size());
+  VectorDouble vv = spde._precisionsKrig->getAllVarianceData();
+  r.var.assign(vv.begin(), vv.end());
+  r.zc = spde._workingData;
+  for (int i = 0; i < spde._precisionsKrig->sizes(); i++) r.proj.push_back(dense(spde._precisionsKrig->getProjMatrix(i)));
+  // likelihood pieces. In matrix free mode every log-determinant call fits Chebyshev polynomials through a 2^20 point FFT (~0.3 s):
+  // lik = 2 -> everything, lik = 1 -> quadratic term only
+  if (withLik >= 1) r.quad = spde.computeQuad();
+  if (withLik >= 2)
+  {
+    law_set_random_seed(13579);
+    r.logdetOp = spde._precisionsKrig->computeLogDetOp(1);
+    if (useChol == 1)
+    {
+      r.logdetTotal = spde.computeLogDet(1);
+      r.loglik = spde.computeLogLikelihood(1, false);
+    }
+  }
+  target->deleteColumnByUID(iptr);
+  r.ok = true;
+  return r;
+}
+
+VF_PART(solvers)
+{
+  auto meshes = mesh_menu(C.thorough(), 1);
+  Space sp;
+  // structure: 0 one Matern, 1 Matern + nugget, 2 two Matern + nugget ; layout: 0 plain, 1 selection + undefined Z, 2 measurement error variances
+  sp.axis("mesh", (int)meshes.size()).axis("model", C.thorough() ? 10 : 3).axis("structure", 3).axis("layout", 3);
+  for_each_case(C, sp, [&](uint64_t id, const std::vector<int>& idx) {
+    const MeshSpec& ms = meshes[idx[0]];
+    int ndim = ms.ndim, imod = idx[1], istr = idx[2], layout = idx[3];
+    std::string kase = std::to_string(id);
+    std::string mk = std::string(ms.kind == 0 ? "turbo" : "std") + std::to_string(ndim) + "d";
+    defineDefaultSpace(ESpaceType::RN, ndim);
+    std::unique_ptr<AMesh> mesh(build_mesh(ms));
+    // models: a sub menu of the Matern menu
+    auto mm = model_menu(ndim, true);
+    std::vector<ModelSpec> sub;
+    for (auto& m : mm) if (m.type == 0 && m.sill == 1. && ((m.aniso == 0 && m.range == 1.5) || (m.aniso == 2 && m.range == 4.) || (ndim == 1 && m.range == 4.))) sub.push_back(m);
+    if (imod >= (int)sub.size()) return;
+    const ModelSpec& mo = sub[imod];
+    std::unique_ptr<Model> model(build_model(mo, ndim));
+    if (!mesh || !model) { C.violation("setup:null", "mesh or model not built", kase); return; }
+    if (istr == 2)
+    {
+      VectorDouble ranges(ndim, 3.);
+      model->addCovFromParam(ECov::MATERN, 3., 0.5, ndim == 2 ? 1. : 0.5, ranges, VectorDouble(), VectorDouble(), true);
+    }
+    if (istr >= 1) model->addCovFromParam(ECov::NUGGET, 0., 0.25);
+    std::string what0 = ms.desc + " | " + mo.desc + " structure=" + std::to_string(istr) + " layout=" + std::to_string(layout);
+    if (C.verbose) fprintf(stderr, "case %s: %s\n", kase.c_str(), what0.c_str());
+    // data: points strictly inside cells; targets: centroids
+    auto cells = cells_of(mesh.get(), ndim);
+    std::vector<std::vector<double>> X(ndim), Z(1), T(ndim);
+    int nd = 0;
+    for (size_t ic = 0; ic < cells.size(); ic += std::max<size_t>(1, cells.size() / 7))
+    {
+      EV w(ndim + 1);
+      for (int r = 0; r <= ndim; r++) w[r] = r == 0 ? 0.5 : 0.5 / ndim;
+      if (nd % 2 == 1 && ndim >= 2) { w[0] = 0.25; w[1] = 0.5; for (int r = 2; r <= ndim; r++) w[r] = 0.25 / (ndim - 1); }
+      for (int d = 0; d < ndim; d++) { double v = 0; for (int r = 0; r <= ndim; r++) v += w[r] * cells[ic].T(d, r); X[d].push_back(v); }
+      Z[0].push_back((double)((nd * 5) % 7 - 3) / 2.);
+      nd++;
+    }
+    for (auto& c : cells) for (int d = 0; d < ndim; d++) { double v = 0; for (int r = 0; r <= ndim; r++) v += c.T(d, r) / (ndim + 1.); T[d].push_back(v); }
+    std::vector<std::vector<double>> cols = X; std::vector<std::string> names, locs;
+    for (int d = 0; d < ndim; d++) { names.push_back("x" + std::to_string(d + 1)); locs.push_back("x" + std::to_string(d + 1)); }
+    cols.push_back(Z[0]); names.push_back("z1"); locs.push_back("z1");
+    if (layout == 1)
+    {
+      std::vector<double> sel(nd, 1.);
+      if (nd > 3) { sel[1] = 0.; cols[ndim][2] = TEST; }
+      cols.push_back(sel); names.push_back("sel"); locs.push_back("sel");
+    }
+    if (layout == 2)
+    {
+      std::vector<double> v(nd);
+      for (int i = 0; i < nd; i++) v[i] = (i % 3 == 0) ? 0.25 : (i % 3 == 1) ? 0.5 : 0.0625;
+      cols.push_back(v); names.push_back("v1"); locs.push_back("v1");
+    }
+    std::unique_ptr<Db> data(make_db(cols, names, locs));
+    std::unique_ptr<Db> target(make_db_xz(T, {}));
+    if (!data || !target) { C.violation("setup:null", "db not built", kase); return; }
+    bool cgdet = (layout == 0 && imod == 0) || (C.thorough() && layout == 0);
+    KrigRun ch = run_spde(model.get(), data.get(), target.get(), mesh.get(), 1, 2);
+    KrigRun cg = run_spde(model.get(), data.get(), target.get(), mesh.get(), 0, cgdet ? 2 : 1);
+    C.eval();
+    if (!ch.ok || !cg.ok) { C.violation("solve:spde-failed:" + mk, "SPDE kriging failed (cholesky ok=" + std::to_string(ch.ok) + ", cg ok=" + std::to_string(cg.ok) + ") " + what0, kase); return; }
+    // ---- the system assembled by the harness
+    int ncov = (int)ch.proj.size();
+    std::vector<EM> Qs;
+    int ntot = 0;
+    for (int ic = 0, k = 0; ic < model->getCovaNumber(); ic++)
+    {
+      if (model->getCova(ic)->getType() == ECov::NUGGET) continue;
+      PrecisionOpCs q(mesh.get(), model->getCova(ic));
+      Qs.push_back(dense(q.getQ())); ntot += q.getSize(); k++;
+    }
+    if ((int)Qs.size() != ncov || ch.x.size() != ntot || cg.x.size() != ntot || ch.b.size() != ntot || cg.b.size() != ntot || cg.proj.size() != ch.proj.size())
+    { C.violation("solve:size:" + mk, "sizes do not match the model: " + what0, kase); return; }
+    int ndat = (int)ch.var.size();
+    EM Aall(ndat, ntot), Qb = EM::Zero(ntot, ntot);
+    for (int ic = 0, off = 0; ic < ncov; ic++)
+    {
+      int n = (int)Qs[ic].rows();
+      if (ch.proj[ic].rows() != ndat || ch.proj[ic].cols() != n) { C.violation("solve:size:" + mk, "projection matrix of the data has the wrong shape: " + what0, kase); return; }
+      Aall.block(0, off, ndat, n) = ch.proj[ic];
+      Qb.block(off, off, n, n) = Qs[ic];
+      off += n;
+    }
+    EV dinv(ndat); for (int i = 0; i < ndat; i++) dinv[i] = 1. / ch.var[i];
+    EM Ac = Qb + Aall.transpose() * dinv.asDiagonal() * Aall;
+    Ac = 0.5 * (Ac + Ac.transpose());
+    Eigen::SelfAdjointEigenSolver<EM> es(Ac);
+    double lmin = es.eigenvalues().minCoeff(), lmax = es.eigenvalues().maxCoeff();
+    if (!(lmin > 0) || lmax / lmin > 1e10) { C.skip(); C.outcome("excluded-ill-conditioned"); return; }
+    // same data, same rhs in both modes
+    if (cg.var != ch.var || (cg.b - ch.b).cwiseAbs().maxCoeff() > 1e-12 * std::max(1., ch.b.cwiseAbs().maxCoeff()))
+      C.violation("solve:rhs-differs-between-modes:" + mk, "right-hand side or data variances differ between Cholesky and CG modes: " + what0, kase);
+    EV xs = Ac.ldlt().solve(ch.b);
+    // ---- residuals
+    double nb = 0;  // the library's normalisation: sum of the Euclidean norms of the blocks of b
+    for (int ic = 0, off = 0; ic < ncov; ic++) { int n = (int)Qs[ic].rows(); nb += ch.b.segment(off, n).norm(); off += n; }
+    double bscale = Ac.cwiseAbs().rowwise().sum().maxCoeff() * std::max(ch.x.cwiseAbs().maxCoeff(), xs.cwiseAbs().maxCoeff()) + ch.b.cwiseAbs().maxCoeff();
+    EV rch = ch.b - Ac * ch.x, rcg = cg.b - Ac * cg.x;
+    if (!(rch.cwiseAbs().maxCoeff() <= 1e-11 * bscale))
+      C.violation("solve:residual:cholesky:" + mk, "Cholesky solution leaves residual " + fmt(rch.cwiseAbs().maxCoeff()) + " (scale " + fmt(bscale) + ") " + what0, kase);
+    const double eps = 1e-8;  // ALinearOpMulti default: stop when r'r / sum_i ||b_i|| <= eps
+    double crit = nb > 0 ? rcg.squaredNorm() / nb : rcg.squaredNorm();
+    if (!(crit <= eps * 1.001 + 1e-24 * bscale * bscale))
+      C.violation("solve:residual:cg:" + mk, "conjugate gradient stopped with r'r/sum||b_i|| = " + fmt(crit) + " > eps = 1e-8 (||r|| = " + fmt(rcg.norm()) + ") " + what0, kase);
+    // ---- Cholesky vs CG on the estimates: |est_cg - est_ch| <= ncov * (||x_cg - x*|| + ||x_ch - x*||), ||x - x*|| <= ||r|| / lambda_min
+    double bound = ncov * (rcg.norm() + rch.norm()) / lmin * 1.001 + 1e-12 * std::max(1., xs.cwiseAbs().maxCoeff());
+    double bound_tol = ncov * std::sqrt(eps * std::max(nb, 1e-300)) / lmin * 1.001 + 1e-12 * std::max(1., xs.cwiseAbs().maxCoeff());
+    double dmax = 0;
+    if (ch.est.size() != cg.est.size() || ch.est.size() != T[0].size()) { C.violation("solve:size:" + mk, "number of estimates " + std::to_string(ch.est.size()) + " / " + std::to_string(cg.est.size()) + " for " + std::to_string(T[0].size()) + " targets: " + what0, kase); return; }
+    for (size_t i = 0; i < ch.est.size(); i++) dmax = std::max(dmax, std::fabs(ch.est[i] - cg.est[i]));
+    bool estfinite = true; for (double v : ch.est) if (!std::isfinite(v)) estfinite = false; for (double v : cg.est) if (!std::isfinite(v)) estfinite = false;
+    if (!estfinite || !(dmax <= std::min(bound, bound_tol)))
+      C.violation("solve:cholesky-vs-cg:estimate:" + mk, "kriging estimates differ by " + fmt(dmax) + " > bound " + fmt(std::min(bound, bound_tol)) + " (solver tolerance / smallest eigenvalue " + fmt(lmin) + ") " + what0, kase);
+    // the estimate is the projection of the solution (targets are centroids): est = sum_structures P_target x
+    {
+      ProjMatrix pt(target.get(), mesh.get());
+      EM PT = dense(&pt);
+      EV e = EV::Zero(PT.rows());
+      for (int ic = 0, off = 0; ic < ncov; ic++) { int n = (int)Qs[ic].rows(); e += PT * xs.segment(off, n); off += n; }
+      double de = 0; for (size_t i = 0; i < ch.est.size(); i++) de = std::max(de, std::fabs(ch.est[i] - e[i]));
+      if (!(de <= 1e-9 * std::max(1., e.cwiseAbs().maxCoeff()) * (1. + lmax / lmin * 1e-3)))
+        C.violation("solve:estimate-vs-dense-reference:" + mk, "Cholesky kriging estimate differs from the dense solve of the same system by " + fmt(de) + " " + what0, kase);
+    }
+    // ---- likelihood pieces
+    EV z = Eigen::Map<const EV>(ch.zc.data(), ch.zc.size());
+    if ((int)z.size() == ndat)
+    {
+      double quadref = z.dot(dinv.asDiagonal() * z) - ch.b.dot(xs);
+      double qtolch = 1e-9 * std::max(1., std::fabs(quadref)) * (1. + lmax / lmin * 1e-4);
+      double qtolcg = ch.b.norm() * std::sqrt(eps * std::max(nb, 1e-300)) / lmin * 1.001 + qtolch;
+      if (!(std::fabs(ch.quad - quadref) <= qtolch)) C.violation("loglik:quad:cholesky:" + mk, "quadratic term " + fmt(ch.quad) + " vs dense reference " + fmt(quadref) + " " + what0, kase);
+      if (!(std::fabs(cg.quad - quadref) <= qtolcg)) C.violation("loglik:quad:cg:" + mk, "quadratic term " + fmt(cg.quad) + " vs dense reference " + fmt(quadref) + " (tolerance " + fmt(qtolcg) + ") " + what0, kase);
+      // log|Sigma| with Sigma = A Q^-1 A' + D
+      EM Sigma = Aall * Qb.ldlt().solve(Aall.transpose());
+      for (int i = 0; i < ndat; i++) Sigma(i, i) += ch.var[i];
+      Sigma = 0.5 * (Sigma + Sigma.transpose());
+      Eigen::SelfAdjointEigenSolver<EM> e2(Sigma);
+      double ldref = 0; for (int i = 0; i < ndat; i++) ldref += std::log(e2.eigenvalues()[i]);
+      double ldop = 0; for (int i = 0; i < ntot; i++) ldop += std::log(es.eigenvalues()[i]);
+      if (!(std::fabs(ch.logdetTotal - ldref) <= 1e-8 * std::max(1., std::fabs(ldref)) * (1. + std::log10(lmax / lmin))))
+        C.violation("loglik:logdet:cholesky:" + mk, "log-determinant " + fmt(ch.logdetTotal) + " vs dense reference log|A Q^-1 A' + D| = " + fmt(ldref) + " " + what0, kase);
+      double llref = -0.5 * (ldref + quadref + ndat * std::log(2. * M_PI));
+      if (!(std::fabs(ch.loglik - llref) <= 1e-8 * std::max(1., std::fabs(llref)) * (1. + std::log10(lmax / lmin)) + qtolch))
+        C.violation("loglik:value:cholesky:" + mk, "log-likelihood " + fmt(ch.loglik) + " vs dense reference " + fmt(llref) + " " + what0, kase);
+      // matrix free mode: the log-determinant of the conditional operator Q + A' D^-1 A is a Monte-Carlo (Hutchinson) estimate z' log(Op) z.
+      // It cannot agree "to the solver tolerance" with the exact value; what is judged is the one thing that does not depend on the draw:
+      // an estimate that is EXACTLY zero although log(Op) != 0 means that nothing was computed.
+      double lognorm = 0; for (int i = 0; i < ntot; i++) lognorm = std::max(lognorm, std::fabs(std::log(es.eigenvalues()[i])));
+      if (!(std::fabs(ch.logdetOp - ldop) <= 1e-8 * std::max(1., std::fabs(ldop)) * (1. + std::log10(lmax / lmin))))
+        C.violation("loglik:logdet-op:cholesky:" + mk, "log|Q + A'D^-1A| = " + fmt(ch.logdetOp) + " vs dense reference " + fmt(ldop) + " " + what0, kase);
+      if (cgdet)
+      {
+        if (cg.logdetOp == 0. && lognorm > 1e-6 && std::fabs(ldop) > 1e-6)
+          C.violation("loglik:cg:logdet-of-conditional-operator-is-zero", "matrix free computeLogDetOp returns exactly 0 for log|Q + A'D^-1A| (Cholesky mode and dense reference: " + fmt(ch.logdetOp) + " / " + fmt(ldop) + ") so that logLikelihoodSPDE(useCholesky=0) is off by half of it: " + what0, kase);
+        C.outcome(cg.logdetOp == 0. ? "cg-logdetop-zero" : "cg-logdetop-nonzero");
+      }
+      double dq = std::fabs(cg.quad - ch.quad);
+      C.outcome(dq == 0 ? "quad-equal" : dq < 1e-10 ? "quad-diff<1e-10" : dq < 1e-6 ? "quad-diff<1e-6" : "quad-diff>=1e-6");
+    }
+    else C.violation("solve:size:" + mk, "centred data vector has " + std::to_string(z.size()) + " values for " + std::to_string(ndat) + " variances: " + what0, kase);
+    C.outcome(dmax == 0 ? "est-equal" : dmax < 1e-10 ? "est-diff<1e-10" : dmax < 1e-7 ? "est-diff<1e-7" : dmax < 1e-4 ? "est-diff<1e-4" : "est-diff>=1e-4");
+    C.outcome("ncov=" + std::to_string(ncov) + ",ndat=" + std::to_string(ndat));
+    double rr = rcg.norm();
+    C.outcome(rr == 0 ? "cg-residual=0" : rr < 1e-10 ? "cg-residual<1e-10" : rr < 1e-6 ? "cg-residual<1e-6" : "cg-residual>=1e-6");
+    if (ndat >= 2 && ntot >= 3) C.nontrivial(id);
+    if (id % 53 == 0) C.sample("{\"id\":" + std::to_string(id) + ",\"case\":" + jstr(what0) + ",\"ndat\":" + std::to_string(ndat) + ",\"n\":" + std::to_string(ntot) + ",\"est_diff\":" + fmt(dmax) + ",\"bound\":" + fmt(std::min(bound, bound_tol)) + ",\"cg_residual\":" + fmt(rr) + ",\"lambda_min\":" + fmt(lmin) + "}");
   });
 }
 
